@@ -38,7 +38,7 @@ var vkScClients = []vkScClient{
 }
 
 type vkScEv struct {
-	Kind   string `json:"kind"` // ask, askneg, askbelow, adv
+	Kind   string `json:"kind"` // ask, askneg, askbelow, adv, pf (the background refresh worker runs every queued refresh)
 	Client int    `json:"client,omitempty"`
 	Scope  int    `json:"scope,omitempty"` // authority-declared scope if this ask reaches upstream
 	D      int    `json:"d,omitempty"`
@@ -48,6 +48,8 @@ func (e vkScEv) String() string {
 	switch e.Kind {
 	case "adv":
 		return fmt.Sprintf("adv(%d)", e.D)
+	case "pf":
+		return fmt.Sprintf("pf(scope=%d)", e.Scope)
 	default:
 		return fmt.Sprintf("%s(%s,scope=%d)", e.Kind, vkScClients[e.Client].Name, e.Scope)
 	}
@@ -68,6 +70,7 @@ type vkScWorld struct {
 	stored  []*vkScStored
 	pending *vkScStored
 	negMode bool
+	holdPF  bool // leave claimed refreshes queued for a later "pf" event instead of dropping them
 }
 
 var vkScPolicy = vkECSPolicy{Enabled: true, V4: 24, V6: 56, Min4: 20, Nets: []string{"10.0.0.0/8"}, CapTTL: 6}
@@ -75,6 +78,7 @@ var vkScPolicy = vkECSPolicy{Enabled: true, V4: 24, V6: 56, Min4: 20, Nets: []st
 var vkScPolicies = []vkECSPolicy{
 	{Enabled: true, V4: 24, V6: 56, Min4: 20, Nets: []string{"10.0.0.0/8"}, CapTTL: 6},
 	{Enabled: true, V4: 24, V6: 56, Nets: []string{"10.0.0.0/8"}, CapTTL: 6}, // floor defaults to the ceiling
+	{Enabled: true, V4: 24, V6: 56, Min4: 20, CapTTL: 6},                      // no client_networks: every client may have its subnet forwarded
 }
 
 func vkNewScWorld() *vkScWorld {
@@ -83,6 +87,8 @@ func vkNewScWorld() *vkScWorld {
 	ctx, cancel := context.WithCancel(context.Background())
 	w.c.config.Prefetch = 50
 	w.c.prefetchQueue = &PrefetchQueue{items: make(chan PrefetchRequest, 64), ctx: ctx, cancel: cancel, metrics: w.c.metrics}
+	// background refreshes run through the cache-less sub-pipeline (edns -> upstream), as autoWire builds it
+	w.c.SetPrefetchQueryer(middleware.NewPipelineQueryer(middleware.VerifNewPipeline([]middleware.Handler{w.e, w.stub}, middleware.RecursionWorkPolicy{})))
 	w.respond = nil
 	w.stub.answer = func(ctx context.Context, req *dns.Msg) *dns.Msg {
 		q := req.Question[0]
@@ -138,9 +144,27 @@ func (w *vkScWorld) apply(ev vkScEv) (string, string) {
 		vtime.Advance(time.Duration(ev.D) * time.Second)
 		return "", "adv"
 	}
+	if ev.Kind == "pf" {
+		// the refresh worker: every claimed refresh is executed by the real processPrefetch;
+		// the authority answers the refresh with the event's declared scope
+		w.scope = ev.Scope
+		n := 0
+		for len(w.c.prefetchQueue.items) > 0 {
+			req := <-w.c.prefetchQueue.items
+			w.pending = nil
+			w.c.prefetchQueue.processPrefetch(req)
+			if w.pending != nil {
+				w.pending.after = vtime.Now()
+				w.stored = append(w.stored, w.pending)
+				n++
+			}
+		}
+		return "", fmt.Sprintf("pf:%d", n)
+	}
 	cl := vkScClients[ev.Client]
 	w.scope = ev.Scope
 	w.pending = nil
+	queued := len(w.c.prefetchQueue.items)
 	name := "geo.t."
 	switch ev.Kind {
 	case "askneg":
@@ -240,13 +264,13 @@ func (w *vkScWorld) apply(ev vkScEv) (string, string) {
 				return fmt.Sprintf("scoped answer shown with TTL %d above the scoped TTL cap %v", rr.Header().Ttl, st.ttl), "violation"
 			}
 		}
-		if n := len(w.c.prefetchQueue.items); n > 0 {
+		if n := len(w.c.prefetchQueue.items); n > queued {
 			return fmt.Sprintf("a scoped entry (scope %v) was queued for background refresh", st.scope), "violation"
 		}
 		return "", "hit-scoped"
 	}
 	// drain prefetch claims of shared entries (legal)
-	for len(w.c.prefetchQueue.items) > 0 {
+	for !w.holdPF && len(w.c.prefetchQueue.items) > 0 {
 		req := <-w.c.prefetchQueue.items
 		releasePrefetchClaim(req.Entry)
 	}
@@ -284,6 +308,11 @@ func vkScReplay(pi int, h []vkScEv) (string, []string) {
 	vkScPolicy = vkScPolicies[pi]
 	w := vkNewScWorld()
 	defer w.stop()
+	for _, ev := range h {
+		if ev.Kind == "pf" {
+			w.holdPF = true
+		}
+	}
 	var outs []string
 	for i, ev := range h {
 		v, o := w.apply(ev)
@@ -376,9 +405,60 @@ func TestVerifC19Scoped(t *testing.T) {
 		}
 	}
 	for pi = range vkScPolicies {
-		if pi == 1 && !c.Thorough() {
-			depth = 2 // the second policy only needs admission + one probe
+		if pi >= 1 && !c.Thorough() {
+			depth = 2 // the other policies only need admission + one probe
 		}
 		rec(nil)
+	}
+	// background refresh x client subnet: creator asks, the entry ages into the refresh
+	// window, a trigger client hits it (claiming a refresh), the worker runs the refresh while
+	// the authority declares a scope, then every client probes. All combinations.
+	pfScopes := []int{0, 24}
+	if c.Thorough() {
+		pfScopes = []int{0, 16, 24, 33}
+	}
+	n := 0
+	for pi = range vkScPolicies {
+		for creator := range vkScClients {
+			for _, s0 := range pfScopes {
+				for trigger := range vkScClients {
+					for _, s1 := range pfScopes {
+						n++
+						if !c.Mine(n) {
+							continue
+						}
+						if c.OverBudget() {
+							c.Cap("time budget")
+							return
+						}
+						for probe := range vkScClients {
+							h := []vkScEv{{Kind: "ask", Client: creator, Scope: s0}, {Kind: "adv", D: 35}, {Kind: "ask", Client: trigger, Scope: s0},
+								{Kind: "pf", Scope: s1}, {Kind: "ask", Client: probe, Scope: s1}}
+							v, outs := vkScReplay(pi, h)
+							c.Add("evaluations", 1)
+							sig := strings.Join(outs, ",")
+							c.Outcome("pf-family:" + outs[len(outs)-2] + ">" + outs[len(outs)-1])
+							if strings.Contains(sig, "pf:1") {
+								c.DistinctStr("nontrivial", fmt.Sprint(pi, h))
+							}
+							if v != "" {
+								if strings.Contains(v, "harness:") {
+									c.HarnessError(v)
+									return
+								}
+								if v2, _ := vkScReplay(pi, h); v2 == "" {
+									c.Add("dropped_unreproducible", 1)
+									continue
+								}
+								c.Violation("scoped:refresh:"+vkC19Class(v), fmt.Sprintf("policy %v after %v: %s", vkScPolicies[pi], h, v), map[string]any{"hist": h, "policy": pi})
+								if c.NumViolations() > 5 {
+									return
+								}
+							}
+						}
+					}
+				}
+			}
+		}
 	}
 }
